@@ -143,7 +143,7 @@ class ResList:
 
     def append(self, m):
         if not isinstance(m, Mono):
-            self.ctx.oblige('result holds monomials', False, 'inv')
+            raise OutOfSubset('result holds monomials' + ' -- shape not recognised, contract does not apply')
             return
         self.ctx.oblige('WF(result): appended monomial follows the previous one in the monomial order',
                         z3.Implies(self.nonempty, self.last < m.vid), 'inv')
@@ -202,7 +202,7 @@ def vc_poly_add(H):
         def preserve(interp, env, it, n):
             res, ai, bi = env.lookup('res'), env.lookup('ai'), env.lookup('bi')
             if res is not st['res'] or not isinstance(ai, SInt) or not isinstance(bi, SInt):
-                ctx.oblige('inv: loop variables keep their shape', False, 'inv')
+                raise OutOfSubset('inv: loop variables keep their shape' + ' -- shape not recognised, contract does not apply')
                 return
             # WF / prefix-sum facts at the new heads (instances of the operand preconditions)
             hyp = z3.And(z3.Implies(z3.And(ai.t - 1 >= 0, ai.t - 1 < A.n.t), A.wf_at(ai.t - 1)),
@@ -391,7 +391,7 @@ def _common_factor_spec(ctx):
         A, B = st['A'], st['B']
         N, D, p1, p2 = env.lookup('nnn'), env.lookup('nnd'), env.lookup('p1'), env.lookup('p2')
         if N is not st['N'] or D is not st['D'] or not isinstance(p1, SInt) or not isinstance(p2, SInt):
-            ctx.oblige('common-factor inv: loop variables keep their shape', False, 'inv')
+            raise OutOfSubset('common-factor inv: loop variables keep their shape' + ' -- shape not recognised, contract does not apply')
             return
         hyp = z3.And(A.facts_at(p1.t - 1), B.facts_at(p2.t - 1), A.facts_at(p1.t), B.facts_at(p2.t))
         for lab, f in inv(A, B, N, D, p1.t, p2.t):
@@ -435,7 +435,7 @@ def vc_rational(H):
                 # invariant of _common_factor_spec
                 r = H.closure(interp, fuc, env)(me, arg)
                 if not isinstance(r, (RatVal, SNum, int)):
-                    ctx.oblige('post: returns a rational polynomial', False)
+                    raise OutOfSubset('post: returns a rational polynomial' + ' -- shape not recognised, contract does not apply')
                     return r
                 if isinstance(r, RatVal):
                     rn, rd = r.numer.den, r.denom.den
@@ -510,7 +510,7 @@ def vc_rational(H):
             interp = Interp(ctx, source_name=REL)
             r = H.closure(interp, fuc, {'RationalPolynomial': cls})(a, b) if nargs == 2 else H.closure(interp, fuc, {'RationalPolynomial': cls})(a)
             if not isinstance(r, RatVal):
-                ctx.oblige(f'post {meth}: returns a rational polynomial', False)
+                raise OutOfSubset(f'post {meth}: returns a rational polynomial' + ' -- shape not recognised, contract does not apply')
                 return r
             en, ed = spec(an, ad, bn, bd)
             ctx.oblige(f'post {meth}: denotes the expected rational function', r.numer.den * ed == en * r.denom.den)
@@ -736,7 +736,7 @@ def vc_poly_mul(H):
             Am, Bm = st['A'], st['B']
             C, i, j = env.lookup('C'), env.lookup('i'), env.lookup('j')
             if C is not st['C'] or not isinstance(i, SInt) or not isinstance(j, SInt):
-                ctx.oblige('inner inv: loop variables keep their shape', False, 'inv')
+                raise OutOfSubset('inner inv: loop variables keep their shape' + ' -- shape not recognised, contract does not apply')
                 return
             hyp = z3.And(Am.facts_at(i.t - 1), Bm.facts_at(j.t - 1), Am.facts_at(i.t), Bm.facts_at(j.t))
             parts = inner_inv(Am, Bm, C, i.t, j.t).children()
